@@ -47,6 +47,7 @@ def build(tier, seed):
              Task(f"{PROP}.S.constructors", PROP, "FortranContainer.__init__", lambda: access.constructor_call_sites(PROP) + access.initial_default(PROP)),
              Task(f"{PROP}.S.elementwise", PROP, "attribute loops", lambda: __import__("contracts.elementwise", fromlist=["x"]).obligations(PROP, replay=lambda: __import__("bounded.c04", fromlist=["x"]).search())),
              Task(f"{PROP}.S.casefold", PROP, "keyword tests on captured text", lambda: __import__("contracts.casefold", fromlist=["x"]).obligations(PROP, "ford.sourceform", lambda: __import__("bounded.c04", fromlist=["x"]).search())),
+             Task(f"{PROP}.S.correlate_frame", PROP, "FortranCodeUnit.correlate", lambda: access.correlate_keeps_accessibility(PROP, lambda: __import__("bounded.c04", fromlist=["x"]).submodule_cases())),
              Task(f"{PROP}.S.casefold.flow", PROP, "keyword tests on local names", lambda: __import__("contracts.casefold", fromlist=["x"]).flow_obligations(PROP, replay=lambda: __import__("bounded.c04", fromlist=["x"]).search())),
              Task(f"{PROP}.S.casefold.prefix", PROP, "keyword prefix tests", lambda: __import__("contracts.casefold", fromlist=["x"]).prefix_obligations(PROP, replay=lambda: __import__("bounded.c04", fromlist=["x"]).same_name_cases())),
              bounded_task()]
